@@ -1,4 +1,5 @@
 import CircusProofs.Core.Narrow
+import CircusProofs.Core.HookFrame
 import CircusProofs.Props.C02
 import CircusProofs.Props.C14
 /-!
@@ -9,8 +10,10 @@ through `notify` (`Watcher.notify_event`): nothing is published once the PUB soc
 (`a.pubClosed`) or while the daemon hangs (`blocked`).  `evsOf s` is what a subscriber has seen.
 
 * decoding of wait statuses (`exitCodeOf`) for all exit codes and all signals;
-* `reap_process`: the entry is popped before anything is published, an unlisted pid publishes
-  nothing, a listed one publishes exactly one `reap` event carrying the decoded status;
+* `reap_process`: an unlisted pid publishes nothing and calls no hook; for a listed one the
+  `before_reap` hook runs first (its own `hook_success` / `hook_failure` event, the pid still listed),
+  then the entry is popped, then exactly one `reap` event carrying the decoded status is published,
+  then the `after_reap` hook runs (its own event); neither hook result is looked at;
 * `spawn_process`: exactly one `spawn` event for the adopted pid, none when `after_spawn` vetoes
   or the exec fails;
 * `_start` / `_stop`: `start` is published in the same atomic section that sets `active`, `stop`
@@ -309,29 +312,114 @@ theorem kWaitpid_evs (pid : Nat) (s : State) : evsOf (kWaitpid (some pid) s).2 =
 
 /-! ### 2. the reap event carries the decoded wait status -/
 
+/-- the watcher objects are those of `ws0` -/
+def WsIs (ws0 : List Watcher) (s : State) : Prop := s.ws = ws0
+
+theorem wsIsLeafN0 (ws0 : List Watcher) : LeafN0 (WsIs ws0) where
+  emit := fun o s hs => by simp only [emit, modS]; split <;> exact hs
+  kill := fun _ _ _ hs => hs
+  waitpid := fun _ _ hs => hs
+  stateOf := fun _ _ hs => hs
+  children := fun _ _ _ hs => hs
+  setObjStopping := fun _ _ _ hs => hs
+  setRc := fun _ _ _ hs => hs
+
+theorem procStatus_ws (pid : Nat) (s : State) : (procStatus pid s).2.ws = s.ws :=
+  procStatus_narrow (wsIsLeafN0 s.ws) pid s rfl
+theorem objStop_ws (pid : Nat) (s : State) : (objStop pid s).2.ws = s.ws :=
+  objStop_narrow (wsIsLeafN0 s.ws) pid s rfl
+theorem kWaitpid_ws (pid : Nat) (s : State) : (kWaitpid (some pid) s).2.ws = s.ws :=
+  kWaitpid_narrow (wsIsLeafN0 s.ws) pid s rfl
+theorem notify_ws (u : Nat) (t : String) (p : Option Nat) (x : String) (s : State) : (notify u t p x s).2.ws = s.ws := by
+  rcases notify_frame u t p x s with h | h <;> rw [h]
+theorem getW_of_ws {s t : State} (h : t.ws = s.ws) (u : Nat) : (getW u t).1 = (getW u s).1 := by
+  simp only [getW, h]
+
+/-- what a call of hook `h` of watcher `w` publishes on an open PUB socket: nothing when no such hook
+    is configured, otherwise one event named after the hook — `hook_failure` when the scripted outcome
+    of this call is an exception, `hook_success` otherwise -/
+def hookEvOf (w : Watcher) (h : String) : List Obs :=
+  match w.hooks.lookup h with
+  | none => []
+  | some spec =>
+    [Obs.ev (resName w.name)
+      (if hookOutcome spec ((w.hookCalls.lookup h).getD 0) = "raise" then "hook_failure" else "hook_success") none h]
+
+theorem hookEvOf_congr {w v : Watcher} (h : String) (h1 : v.hooks = w.hooks) (h2 : v.name = w.name)
+    (h3 : v.hookCalls.lookup h = w.hookCalls.lookup h) : hookEvOf v h = hookEvOf w h := by
+  simp only [hookEvOf, h1, h2, h3]
+
+/-- a hook event is neither a `reap` nor a `spawn` event -/
+theorem hookEvOf_not_reap (w : Watcher) (h : String) (q : Nat) : (hookEvOf w h).countP (isReapOf q) = 0 := by
+  unfold hookEvOf
+  split
+  · rfl
+  · simp [isReapOf]
+
+/-- **what `call_hook` publishes** (PUB socket open, daemon not hung): exactly `hookEvOf` -/
+theorem callHook_evs (u : Nat) (h : String) (s : State) (hb : s.blocked = false) (hp : s.a.pubClosed = false) :
+    evsOf (callHook u h s).2 = evsOf s ++ hookEvOf (getW u s).1 h := by
+  cases hl : (getW u s).1.hooks.lookup h with
+  | none =>
+    rw [C14_call_hook_absent u h s hl]
+    simp [hookEvOf, hl]
+  | some spec =>
+    have hb1 : ∀ i, (bumpHook u h i s).2.blocked = false := fun i => hb
+    have hp1 : ∀ i, (bumpHook u h i s).2.a.pubClosed = false := fun i => hp
+    have hl1 : ∀ i, evsOf (bumpHook u h i s).2 = evsOf s := fun i => rfl
+    have hn1 : ∀ i, (getW u (bumpHook u h i s).2).1.name = (getW u s).1.name := by
+      intro i; obtain ⟨hc, he, _⟩ := getW_bumpHook u h i u s; rw [he]
+    unfold callHook
+    simp only [bind, hl]
+    by_cases ho : hookOutcome spec (((getW u s).1.hookCalls.lookup h).getD 0) = "raise"
+    · erw [if_pos ho]
+      simp only [bind, pure, show (getW u s).2 = s from rfl]
+      rw [notify_evs _ _ _ _ _ (hb1 _) (hp1 _), hl1, hn1]
+      simp only [hookEvOf, hl, ho, if_true]
+    · erw [if_neg ho]
+      simp only [bind, pure, show (getW u s).2 = s from rfl]
+      rw [notify_evs _ _ _ _ _ (hb1 _) (hp1 _), hl1, hn1]
+      simp only [hookEvOf, hl, ho, if_false]
+
 /-- the tail of `reap_process` once the wait status is known: status check, `Process.stop()` for a
-    dead process — neither publishes — then the `reap` event -/
+    dead process — neither publishes nor touches a watcher — then the `reap` event, then the
+    `after_reap` hook -/
 theorem reapTail_known (u pid st : Nat) (s : State) :
-    ∃ s1, Keep s s1 ∧ evsOf s1 = evsOf s ∧
-      reapTail u pid (some st) s = notify u "reap" (some pid) (toString (exitCodeOf st)) s1 := by
+    ∃ s1, Keep s s1 ∧ evsOf s1 = evsOf s ∧ s1.ws = s.ws ∧
+      reapTail u pid (some st) s =
+        ((), (callHook u "after_reap" (notify u "reap" (some pid) (toString (exitCodeOf st)) s1).2).2) := by
   unfold reapTail
   simp only [bind, pure]
   by_cases hd : isDead (procStatus pid s).1 = true
   · refine ⟨(objStop pid (procStatus pid s).2).2, (procStatus_keep pid s).trans (objStop_keep pid _),
-      (objStop_evs pid _).trans (procStatus_evs pid s), ?_⟩
+      (objStop_evs pid _).trans (procStatus_evs pid s), (objStop_ws pid _).trans (procStatus_ws pid s), ?_⟩
     erw [if_pos hd]
-  · refine ⟨(procStatus pid s).2, procStatus_keep pid s, procStatus_evs pid s, ?_⟩
+  · refine ⟨(procStatus pid s).2, procStatus_keep pid s, procStatus_evs pid s, procStatus_ws pid s, ?_⟩
     erw [if_neg hd]
 
+/-- the `reap` event followed by the `after_reap` hook, from a state whose watchers are those of `s` -/
+theorem reap_then_hook_evs (u pid : Nat) (x : String) (s s1 : State) (hk : Keep s s1) (hws : s1.ws = s.ws)
+    (hb : s.blocked = false) (hp : s.a.pubClosed = false) :
+    evsOf (callHook u "after_reap" (notify u "reap" (some pid) x s1).2).2 =
+      evsOf s1 ++ [Obs.ev (resName (getW u s).1.name) "reap" (some pid) x] ++ hookEvOf (getW u s).1 "after_reap" := by
+  have hb1 : s1.blocked = false := hk.blocked.trans hb
+  have hp1 : s1.a.pubClosed = false := by rw [hk.a]; exact hp
+  have hk2 := notify_keep u "reap" (some pid) x s1
+  rw [callHook_evs u _ _ (hk2.blocked.trans hb1) (by rw [hk2.a]; exact hp1),
+    notify_evs u _ _ _ s1 hb1 hp1, getW_of_ws ((notify_ws u _ _ _ s1).trans hws), getW_of_ws hws]
+
 /-- **the reap event carries the exit status** (status delivered by the arbiter's `waitpid(-1)`):
-    with the PUB socket open and the daemon not hung, `reap_process` publishes exactly one event —
-    `reap`, for this pid, `exit_code` = the decoded wait status — and nothing else. -/
+    with the PUB socket open and the daemon not hung, the part of `reap_process` after the pop
+    publishes exactly one `reap` event — for this pid, `exit_code` = the decoded wait status —
+    followed by what the `after_reap` hook call publishes (`hookEvOf`: nothing when no such hook is
+    configured, else its one `hook_success` / `hook_failure` event), and nothing else. -/
 theorem C09_reap_event_carries_exit_code (u pid st : Nat) (s : State)
     (hb : s.blocked = false) (hp : s.a.pubClosed = false) :
     evsOf (reapTail u pid (some st) s).2 =
-      evsOf s ++ [Obs.ev (resName (getW u s).1.name) "reap" (some pid) (toString (exitCodeOf st))] := by
-  obtain ⟨s1, hk, he, hr⟩ := reapTail_known u pid st s
-  rw [hr, notify_evs u _ _ _ s1 (hk.blocked.trans hb) (by rw [hk.a]; exact hp), he, hk.name]
+      evsOf s ++ [Obs.ev (resName (getW u s).1.name) "reap" (some pid) (toString (exitCodeOf st))] ++
+        hookEvOf (getW u s).1 "after_reap" := by
+  obtain ⟨s1, hk, he, hws, hr⟩ := reapTail_known u pid st s
+  rw [hr, reap_then_hook_evs u pid _ s s1 hk hws hb hp, he]
 
 /-- the blocking wait publishes nothing and keeps watchers, arbiter and flags, when it returns -/
 theorem reapWait_keep (pid : Nat) : ∀ (fuel : Nat) (s : State) (r : Option Nat),
@@ -357,13 +445,37 @@ theorem reapWait_keep (pid : Nat) : ∀ (fuel : Nat) (s : State) (r : Option Nat
       obtain ⟨h4, h5⟩ := ih (kSleep 1 s1).2 r h
       exact ⟨(hk.trans h2).trans h4, h5.trans (h3.trans he)⟩
 
+/-- the blocking wait touches no watcher object, however it ends -/
+theorem reapWait_ws (pid : Nat) : ∀ (fuel : Nat) (s : State), (reapWait pid fuel s).2.ws = s.ws := by
+  intro fuel
+  induction fuel with
+  | zero =>
+    intro s
+    simp only [reapWait, setBlocked, bind, pure]
+    show (emit .blocked s).2.ws = s.ws
+    simp only [emit, modS]
+    split <;> rfl
+  | succ n ih =>
+    intro s
+    unfold reapWait
+    simp only [bind]
+    have he := kWaitpid_ws pid s
+    generalize kWaitpid (some pid) s = kw at he ⊢
+    obtain ⟨res, s1⟩ := kw
+    cases res with
+    | echild => exact he
+    | got p st => exact he
+    | none => exact (ih (kSleep 1 s1).2).trans he
+
 /-- **… also when `reap_process` had to wait itself** (`status=None`: `waitpid(pid)` until the
-    kernel delivers the status `st`): one `reap` event with the decoded status. -/
+    kernel delivers the status `st`): one `reap` event with the decoded status, then what the
+    `after_reap` hook call publishes. -/
 theorem C09_reap_event_carries_exit_code_waited (u pid st : Nat) (s : State)
     (hw : (reapWait pid spinLimit s).1 = some (some st))
     (hb : s.blocked = false) (hp : s.a.pubClosed = false) :
     evsOf (reapTail u pid none s).2 =
-      evsOf s ++ [Obs.ev (resName (getW u s).1.name) "reap" (some pid) (toString (exitCodeOf st))] := by
+      evsOf s ++ [Obs.ev (resName (getW u s).1.name) "reap" (some pid) (toString (exitCodeOf st))] ++
+        hookEvOf (getW u s).1 "after_reap" := by
   obtain ⟨hk, he⟩ := reapWait_keep pid spinLimit s _ hw
   have hstep : reapTail u pid none s = reapTail u pid (some st) (reapWait pid spinLimit s).2 := by
     unfold reapTail
@@ -373,18 +485,23 @@ theorem C09_reap_event_carries_exit_code_waited (u pid st : Nat) (s : State)
     simp only at hw
     subst hw
     rfl
-  rw [hstep, C09_reap_event_carries_exit_code u pid st _ (hk.blocked.trans hb) (by rw [hk.a]; exact hp), he, hk.name]
+  rw [hstep, C09_reap_event_carries_exit_code u pid st _ (hk.blocked.trans hb) (by rw [hk.a]; exact hp), he,
+    getW_of_ws (reapWait_ws pid spinLimit s) u]
 
 /-- **… and when `Popen.poll()` had already collected the process** (`is_alive` reaped it and cached
-    `returncode = exitCodeOf st`, so `waitpid` says ECHILD): the event carries the cached code. -/
+    `returncode = exitCodeOf st`, so `waitpid` says ECHILD): the event carries the cached code; the
+    `after_reap` hook follows (after `Process.stop()`, which publishes nothing). -/
 theorem C09_reap_event_after_poll (u pid : Nat) (c : Int) (s : State)
     (hw : (reapWait pid spinLimit s).1 = some none) (hrc : (getO pid (reapWait pid spinLimit s).2).1.rc = some c)
     (hb : s.blocked = false) (hp : s.a.pubClosed = false) :
     evsOf (reapTail u pid none s).2 =
-      evsOf s ++ [Obs.ev (resName (getW u s).1.name) "reap" (some pid) (toString c)] := by
+      evsOf s ++ [Obs.ev (resName (getW u s).1.name) "reap" (some pid) (toString c)] ++
+        hookEvOf (getW u s).1 "after_reap" := by
   obtain ⟨hk, he⟩ := reapWait_keep pid spinLimit s _ hw
+  have hws := reapWait_ws pid spinLimit s
   have hstep : reapTail u pid none s =
-      objStop pid (notify u "reap" (some pid) (toString c) (reapWait pid spinLimit s).2).2 := by
+      ((), (callHook u "after_reap"
+        (objStop pid (notify u "reap" (some pid) (toString c) (reapWait pid spinLimit s).2).2).2).2) := by
     unfold reapTail
     simp only [bind, pure]
     generalize reapWait pid spinLimit s = rw at hw hrc
@@ -392,7 +509,13 @@ theorem C09_reap_event_after_poll (u pid : Nat) (c : Int) (s : State)
     simp only at hw hrc
     subst hw
     simp only [show (getO pid s1).2 = s1 from rfl, hrc]
-  rw [hstep, objStop_evs, notify_evs u _ _ _ _ (hk.blocked.trans hb) (by rw [hk.a]; exact hp), he, hk.name]
+  have hb1 : (reapWait pid spinLimit s).2.blocked = false := hk.blocked.trans hb
+  have hp1 : (reapWait pid spinLimit s).2.a.pubClosed = false := by rw [hk.a]; exact hp
+  have hk23 := (notify_keep u "reap" (some pid) (toString c) (reapWait pid spinLimit s).2).trans
+    (objStop_keep pid (notify u "reap" (some pid) (toString c) (reapWait pid spinLimit s).2).2)
+  rw [hstep, callHook_evs u _ _ (hk23.blocked.trans hb1) (by rw [hk23.a]; exact hp1), objStop_evs,
+    notify_evs u _ _ _ _ hb1 hp1, he,
+    getW_of_ws (((objStop_ws pid _).trans (notify_ws u _ _ _ _)).trans hws) u, getW_of_ws hws u]
 
 /-- `Popen.poll()` caches exactly the decoded status it collected -/
 theorem C09_poll_caches_exit_code (pid p st : Nat) (s : State) (hrc : (getO pid s).1.rc = none)
@@ -417,17 +540,22 @@ theorem C09_no_reap_event_for_unlisted (u pid : Nat) (st : Option Nat) (s : Stat
   erw [if_pos (by simpa using h)]
   rfl
 
-/-- **the entry is popped before anything is published**: for a listed pid `reap_process` first
-    removes the pid from the `processes` dict, then runs the waiting / publishing tail — in that
-    tail (and in anything it calls) the pid is no longer listed. -/
-theorem C09_reap_pops_first (u pid : Nat) (st : Option Nat) (s : State) (h : pid ∈ (getW u s).1.pids) :
-    reapProcess u pid st s = reapTail u pid st (popPid u pid s).2 ∧
-      pid ∉ (getW u (popPid u pid s).2).1.pids := by
-  constructor
+/-- **`before_reap` hook, then the pop, then the rest**: for a listed pid `reap_process` first calls
+    the `before_reap` hook — which sees the pid still listed, publishes its own event only, and whose
+    result (true, false, exception) is not looked at — then removes the pid from the `processes` dict,
+    then runs the waiting / publishing tail: in that tail (the `reap` event, `Process.stop()`, the
+    `after_reap` hook and anything they call) the pid is no longer listed. -/
+theorem C09_reap_pops_after_before_reap_hook (u pid : Nat) (st : Option Nat) (s : State)
+    (h : pid ∈ (getW u s).1.pids) :
+    reapProcess u pid st s = reapTail u pid st (popPid u pid (callHook u "before_reap" s).2).2 ∧
+      pid ∈ (getW u (callHook u "before_reap" s).2).1.pids ∧
+      pid ∉ (getW u (popPid u pid (callHook u "before_reap" s).2).2).1.pids := by
+  refine ⟨?_, ?_, ?_⟩
   · unfold reapProcess
     simp only [bind]
     erw [if_neg (by simpa using h)]
     rfl
+  · rw [getW_callHook_pids]; exact h
   · rw [getW_popPid]; simp
 
 /-- after `reap_process(pid)` the pid is not listed (whatever happened in between) -/
@@ -474,19 +602,28 @@ theorem notify_reap_other (u pid q : Nat) (hq : q ≠ pid) (x : String) (s1 : St
     rw [notify_evs u _ _ _ s1 h1 h2, List.countP_append]
     simp [isReapOf, Ne.symm hq]
 
+theorem quiet3_reapOf (pid : Nat) : Quiet3 (isReapOf pid) :=
+  ⟨fun _ p _ => by cases p <;> simp [isReapOf], fun _ p _ => by cases p <;> simp [isReapOf],
+   fun _ p _ => by cases p <;> simp [isReapOf]⟩
+
+/-- a hook call publishes no `reap` event -/
+theorem callHook_reapCnt (u : Nat) (h : String) (q : Nat) (s : State) :
+    (evsOf (callHook u h s).2).countP (isReapOf q) = (evsOf s).countP (isReapOf q) :=
+  callHook_narrow (evCntLeafN _ _ (quiet3_reapOf q)) u h s rfl
+
 theorem reapTail_known_other (u pid q : Nat) (hq : q ≠ pid) (x : Nat) (s : State) :
     (evsOf (reapTail u pid (some x) s).2).countP (isReapOf q) = (evsOf s).countP (isReapOf q) := by
-  obtain ⟨s1, _, he, hr⟩ := reapTail_known u pid x s
-  rw [hr, notify_reap_other u pid q hq, he]
+  obtain ⟨s1, _, he, _, hr⟩ := reapTail_known u pid x s
+  rw [hr, callHook_reapCnt, notify_reap_other u pid q hq, he]
 
 /-- **a call of `reap_process(pid)` publishes no `reap` event for any other pid** -/
 theorem C09_reap_process_publishes_only_its_pid (u pid q : Nat) (st : Option Nat) (s : State) (hq : q ≠ pid) :
     (evsOf (reapProcess u pid st s).2).countP (isReapOf q) = (evsOf s).countP (isReapOf q) := by
   by_cases hl : pid ∈ (getW u s).1.pids
-  · rw [(C09_reap_pops_first u pid st s hl).1]
-    have hpop : evsOf (popPid u pid s).2 = evsOf s := rfl
-    rw [← hpop]
-    generalize (popPid u pid s).2 = s0
+  · rw [(C09_reap_pops_after_before_reap_hook u pid st s hl).1]
+    have hpop : evsOf (popPid u pid (callHook u "before_reap" s).2).2 = evsOf (callHook u "before_reap" s).2 := rfl
+    rw [← callHook_reapCnt u "before_reap" q s, ← hpop]
+    generalize (popPid u pid (callHook u "before_reap" s).2).2 = s0
     cases st with
     | some x => exact reapTail_known_other u pid q hq x s0
     | none =>
@@ -503,10 +640,50 @@ theorem C09_reap_process_publishes_only_its_pid (u pid q : Nat) (st : Option Nat
         cases r with
         | none =>
           simp only
-          rw [objStop_evs, notify_reap_other u pid q hq]
+          rw [callHook_reapCnt, objStop_evs, notify_reap_other u pid q hq]
           rfl
         | some x => exact reapTail_known_other u pid q hq x s1
   · rw [C09_no_reap_event_for_unlisted u pid st s hl]
+
+/-- the pop changes, of any watcher, the pid list only -/
+theorem getW_popPid_rest (u pid v : Nat) (s : State) :
+    ∃ ps, (getW v (popPid u pid s).2).1 = { (getW v s).1 with pids := ps } := by
+  simp only [getW, popPid, modW, modS]
+  rw [find_map_uid _ (by intro w; by_cases hu : w.uid = u <;> simp [hu])]
+  cases s.ws.find? (fun w => decide (w.uid = v)) with
+  | none => exact ⟨defaultWatcher.pids, rfl⟩
+  | some w =>
+    simp only [Option.map_some, Option.getD_some]
+    by_cases hu : w.uid = u
+    · rw [if_pos hu]; exact ⟨_, rfl⟩
+    · rw [if_neg hu]; exact ⟨w.pids, rfl⟩
+
+/-- **the whole event sequence of one `reap_process`** (PUB socket open, daemon not hung, status
+    delivered by the arbiter's `waitpid(-1)`): for a listed pid the subscriber sees, in this order,
+    what the `before_reap` hook call publishes (`hookEvOf`: nothing without such a hook, else its one
+    `hook_success` / `hook_failure` event), then exactly one `reap` event for the pid with the decoded
+    exit status, then what the `after_reap` hook call publishes — and nothing else. -/
+theorem C09_reap_event_sequence (u pid st : Nat) (s : State) (h : pid ∈ (getW u s).1.pids)
+    (hb : s.blocked = false) (hp : s.a.pubClosed = false) :
+    evsOf (reapProcess u pid (some st) s).2 =
+      evsOf s ++ hookEvOf (getW u s).1 "before_reap" ++
+        [Obs.ev (resName (getW u s).1.name) "reap" (some pid) (toString (exitCodeOf st))] ++
+        hookEvOf (getW u s).1 "after_reap" := by
+  rw [(C09_reap_pops_after_before_reap_hook u pid (some st) s h).1]
+  have hbA : (callHook u "before_reap" s).2.blocked = false := (callHook_blocked u _ s).trans hb
+  have hpA : (callHook u "before_reap" s).2.a.pubClosed = false := by rw [callHook_a]; exact hp
+  have hevB : evsOf (popPid u pid (callHook u "before_reap" s).2).2 =
+      evsOf s ++ hookEvOf (getW u s).1 "before_reap" := callHook_evs u "before_reap" s hb hp
+  obtain ⟨ps, hB⟩ := getW_popPid_rest u pid u (callHook u "before_reap" s).2
+  have hname : (getW u (popPid u pid (callHook u "before_reap" s).2).2).1.name = (getW u s).1.name := by
+    rw [hB]; exact getW_callHook_name u _ u s
+  have hhook : hookEvOf (getW u (popPid u pid (callHook u "before_reap" s).2).2).1 "after_reap" =
+      hookEvOf (getW u s).1 "after_reap" := by
+    refine hookEvOf_congr _ ?_ hname ?_
+    · rw [hB]; exact getW_callHook_hooks u _ u s
+    · rw [hB]; exact getW_callHook_calls u "before_reap" u "after_reap" (by decide) s
+  rw [C09_reap_event_carries_exit_code u pid st (popPid u pid (callHook u "before_reap" s).2).2 hbA hpA, hevB, hname,
+    hhook]
 
 /-! ### 4. exactly one spawn event per adopted worker -/
 
@@ -930,6 +1107,10 @@ def c09S : State :=
 /-- the same without the vetoing hook -/
 def c09T : State := { c09S with ws := c09S.ws.map fun w => { w with hooks := [] } }
 
+/-- the same with a `before_reap` hook that says no and an `after_reap` hook that raises -/
+def c09R : State := { c09S with ws := c09S.ws.map fun w =>
+  { w with hooks := [("before_reap", { outs := ["false"], ignore := false }), ("after_reap", { outs := ["raise"], ignore := false })] } }
+
 -- hypotheses of the reap theorems hold: the wait delivers the status, the PUB socket is open
 example : (reapWait 100 spinLimit c09S).1 = some (some (wstatExit 3)) ∧ c09S.blocked = false ∧
     c09S.a.pubClosed = false ∧ 100 ∈ (getW 1 c09S).1.pids := by decide +kernel
@@ -940,6 +1121,14 @@ example : (evsOf (reapProcess 1 100 (some (wstatSig 9)) c09S).2).map showObs = [
   decide +kernel
 example : (evsOf (reapProcess 1 100 none (reapProcess 1 100 none c09S).2).2).map showObs =
     ["o ev 119.95.97 reap 100 3"] := by decide +kernel
+-- with reap hooks (`before_reap` says no, `after_reap` raises): hook event, reap event, hook event; the pid is popped
+example : (evsOf (reapProcess 1 100 (some (wstatExit 3)) c09R).2).map showObs =
+      ["o ev 119.95.97 hook_success - before_reap", "o ev 119.95.97 reap 100 3", "o ev 119.95.97 hook_failure - after_reap"] ∧
+    (callHook 1 "before_reap" c09R).1 = false ∧ (getW 1 (reapProcess 1 100 (some (wstatExit 3)) c09R).2).1.pids = [101] ∧
+    100 ∈ (getW 1 c09R).1.pids ∧ c09R.blocked = false ∧ c09R.a.pubClosed = false := by decide +kernel
+example : (evsOf (reapProcess 1 100 none c09R).2).map showObs =
+      ["o ev 119.95.97 hook_success - before_reap", "o ev 119.95.97 reap 100 3", "o ev 119.95.97 hook_failure - after_reap"] := by
+  decide +kernel
 -- spawn: vetoed by `after_spawn` (worker 102 adopted, killed, no spawn event) / accepted (one event)
 example : (match (spawnTry (exec 100) 1 3 c09S).1 with | .rFalse => true | _ => false) = true ∧
     (evsOf (spawnTry (exec 100) 1 3 c09S).2).map showObs =
@@ -972,8 +1161,8 @@ example : (run (initState [{ name := "w", np := 1 }] [{}] 0)
 
 Run-level statement (kept as a comment, not claimed):
 `∀ cfg bs aw ops pid, ((evsOf (run (initState cfg bs aw) ops)).countP (isReapOf pid)) ≤ 1`.
-The local ingredients are above: a call of `reap_process(pid)` pops the entry first
-(`C09_reap_pops_first`), publishes at most its one event (`C09_reap_event_carries_exit_code*`), no
+The local ingredients are above: a call of `reap_process(pid)` pops the entry before the `reap`
+event (`C09_reap_pops_after_before_reap_hook`), publishes at most its one event (`C09_reap_event_carries_exit_code*`), no
 event for another pid (`C09_reap_process_publishes_only_its_pid`), none for an unlisted pid
 (`C09_no_reap_event_for_unlisted`).  What is missing is pid freshness along runs — a pid that was
 popped is never listed again, because `spawnAdopt` only lists `k.nextPid`, which grows strictly
